@@ -81,11 +81,19 @@ def impl(case) -> str:
 
     def fn(i):
         toks.append(f"(r{i}@{exact(clock.seconds(), K)}:{exact(calls[i].getTime(), K)}")
-        for b in (bodies[i] if i < len(bodies) else []):
-            if b[0] == "raise":
-                toks.append(")!")
-                raise Boom()
-            do(b)
+        try:
+            for b in (bodies[i] if i < len(bodies) else []):
+                if b[0] == "raise":
+                    raise Boom()
+                if b[0] == "adv":                 # re-entrant advance from inside a running call
+                    toks.append("A")
+                    clock.advance(b[1] / K)
+                    toks.append("=" + exact(clock.seconds(), K))
+                else:
+                    do(b)
+        except Boom:
+            toks.append(")!")                     # own exception, or one propagating out of the nested advance
+            raise
         toks.append(")")
 
     for o in case["ops"]:
@@ -221,11 +229,54 @@ class Ref:
                     return self.fail(f"the function of call {i} did not raise as scripted", "log")
                 self.raised = True
                 return None
+            if b[0] == "adv":
+                f = self.advance(b[1], top=False)
+                if f:
+                    return f
+                if self.raised:                    # the exception of an inner call propagates through this function
+                    if (self.peek() or "").startswith("(r"):
+                        return self.fail("a call ran after a call function raised inside a nested advance",
+                                         "ran-after-raise")
+                    if self.take() != ")!":
+                        return self.fail(f"the exception did not propagate through the function of call {i}", "log")
+                    return None
+                continue
             f = self.bop(b)
             if f:
                 return f
         if self.take() != ")":
             return self.fail(f"the function of call {i} did not finish as scripted", "log")
+        return None
+
+    def advance(self, amount, top=True):
+        """Clock.advance(amount), possibly re-entrant (called by a running call function)"""
+        if self.take() != "A":
+            return self.fail("harness token", "log")
+        self.now += amount
+        self.iteration += 1
+        aborted = False
+        while (self.peek() or "").startswith("(r"):
+            f = self.run_event(self.now)
+            if f:
+                return f
+            if self.raised:
+                # Clock.advance propagates the exception: nothing else may run in this advance; what was due
+                # stays pending (and must run in a later advance)
+                aborted = True
+                if top and (self.peek() or "").startswith("(r"):
+                    return self.fail("a call ran in the same advance after a call function raised", "ran-after-raise")
+                break
+        if aborted and not top:
+            return None                            # no return from the nested advance: the caller sees self.raised
+        if not aborted:
+            due = [i for i in self.pending() if self.sched[i] <= self.now]
+            if due:
+                return self.fail(f"advance to {self.now} returned with due call(s) {due} still pending "
+                                 f"(times {[self.sched[i] for i in due]})", "due-call-not-run")
+        self.raised = False
+        t = self.take()
+        if t != f"={self.now}":
+            return self.fail(f"after advance the clock reads {t}, expected {self.now}", "clock-value")
         return None
 
     tie_by_creation = True
@@ -239,29 +290,9 @@ def oracle(case, obs):
             if f:
                 return f
             continue
-        if r.take() != "A":
-            return r.fail("harness token", "log")
-        r.now += o[1]
-        r.iteration += 1
-        aborted = False
-        while (r.peek() or "").startswith("(r"):
-            f = r.run_event(r.now)
-            if f:
-                return f
-            if r.raised:
-                # Clock.advance propagates the exception: nothing else may run in this advance; what was due
-                # stays pending (and must run in a later advance, which the next iteration of this check sees)
-                aborted = True
-                if (r.peek() or "").startswith("(r"):
-                    return r.fail("a call ran in the same advance after a call function raised", "ran-after-raise")
-                break
-        due = [] if aborted else [i for i in r.pending() if r.sched[i] <= r.now]
-        if due:
-            return r.fail(f"advance to {r.now} returned with due call(s) {due} still pending "
-                          f"(times {[r.sched[i] for i in due]})", "due-call-not-run")
-        t = r.take()
-        if t != f"={r.now}":
-            return r.fail(f"after advance the clock reads {t}, expected {r.now}", "clock-value")
+        f = r.advance(o[1], top=True)
+        if f:
+            return f
     if r.pos != len(r.toks):
         return r.fail(f"unexpected extra events {r.toks[r.pos:r.pos + 3]}", "extra-events")
     return None
@@ -318,6 +349,36 @@ def pull_case(rng, adv_ops):
     return {"k": k, "ops": ops, "bodies": bodies}
 
 
+def reentrant_case(rng):
+    """a running call calls clock.advance(d) itself (nested up to depth 2-3) and then, still inside the call,
+    schedules or moves calls into the window between the outer target time and the new current time"""
+    k = rng.choice([0, 1])
+    n = rng.randrange(3, 8)
+    times = [rng.choice([1, 1, 2, 3, 4, 6]) for _ in range(n)]
+    ops = [["later", t] for t in times]
+    bodies = [[] for _ in range(n)]
+    nested = rng.sample(range(n), rng.randrange(1, min(4, n) + 1))
+    for i in nested:
+        b = []
+        if rng.random() < 0.3:
+            b.append(rng.choice([["later", 0], ["snap"], ["later", 1]]))
+        b.append(["adv", rng.choice([0, 1, 1, 2, 3])])
+        for _ in range(rng.randrange(1, 4)):
+            j = rng.randrange(n + 3)
+            b.append(rng.choice([["later", 0], ["later", 0], ["later", 1], ["reset", j, 0], ["delay", j, -rng.choice([1, 2, 3])],
+                                 ["reset", j, 1], ["cancel", j], ["snap"]]))
+        if rng.random() < 0.15:
+            b.insert(rng.randrange(len(b) + 1), ["raise"])
+        bodies[i] = b
+    # functions of calls created by the functions above (ids n, n+1, ...): some advance again
+    for _ in range(rng.randrange(0, 3)):
+        bodies.append(rng.choice([[], [["adv", 1], ["later", 0]], [["later", 0]], [["adv", 2], ["snap"]]]))
+    ops.append(["snap"])
+    for a in [rng.choice([1, 1, 2]) for _ in range(rng.randrange(1, 4))] + [0, 20]:
+        ops += [["adv", a], ["snap"]]
+    return {"k": k, "ops": ops, "bodies": bodies}
+
+
 def rand_case(rng, nops, neg=False, adv_name="adv"):
     k = rng.choice([0, 1, 3, 10, 20])
     raise_p = rng.choice([0.0, 0.0, 0.2, 0.5])
@@ -355,6 +416,9 @@ ALPHABET = [["later", 0], ["later", 1], ["later", 2], ["adv", 1], ["cancel", 0],
 EXH_BODIES = [[["later", 0], ["reset", 1, 0]], [["cancel", 2], ["delay", 0, 1]],
               [["later", 1], ["later", 1], ["reset", 3, 1]], [["snap"]]]
 # the same with exceptions: call 0 raises after scheduling, call 1 raises at once
+# re-entrant advance: call 0 advances the clock itself and then schedules for "now"; call 1 (which may run inside that
+# nested advance) advances again and pulls call 2 to "now"
+EXH_BODIES_ADV = [[["adv", 1], ["later", 0]], [["adv", 1], ["reset", 2, 0], ["later", 0]], [["snap"]], [["adv", 0], ["later", 0]]]
 EXH_BODIES_RAISE = [[["later", 0], ["raise"], ["reset", 1, 0]], [["raise"]],
                     [["later", 1], ["later", 1], ["reset", 3, 1]], [["snap"], ["raise"]]]
 
@@ -367,13 +431,15 @@ def gen(rng, tier):
             if n == depth and rng.random() > (0.03 if tier == "quick" else 0.03):
                 continue
             ops = [ALPHABET[a] for a in word] + [["snap"], ["adv", 1], ["snap"], ["adv", 3], ["snap"]]
-            cases.append({"k": 1, "ops": ops, "bodies": [EXH_BODIES, [], EXH_BODIES_RAISE][word[0] % 3]})
+            cases.append({"k": 1, "ops": ops, "bodies": [EXH_BODIES, [], EXH_BODIES_RAISE, EXH_BODIES_ADV][(word[0] + n) % 4]})
     for _ in range(220 if tier == "quick" else 4000):
         cases.append(rand_case(rng, rng.randrange(5, 60)))
     for _ in range(70 if tier == "quick" else 1000):      # negative delays / advances: the code accepts them
         cases.append(rand_case(rng, rng.randrange(5, 40), neg=True))
     for _ in range(120 if tier == "quick" else 2500):     # postponed, then pulled back by a negative delay()
         cases.append(pull_case(rng, lambda a: [["adv", a]]))
+    for _ in range(200 if tier == "quick" else 4000):     # re-entrant clock.advance() from inside running calls
+        cases.append(reentrant_case(rng))
     return cases
 
 
@@ -390,6 +456,11 @@ def corpus():
         {"k": 1, "ops": [["later", 4], ["later", 6], ["delay", 1, -3], ["snap"], ["adv", 4], ["adv", 2]],
          "bodies": []},
         {"k": 0, "ops": [["adv", 0], ["snap"]], "bodies": []},
+        # re-entrant advance: a@1 does clock.advance(1); clock.callLater(0, z): the outer advance(1) must not return with
+        # z@2 pending at seconds() == 2; depth 2, and a far call pulled into the window by reset(0) / delay(-k)
+        {"k": 0, "ops": [["later", 1], ["adv", 1], ["snap"]], "bodies": [[["adv", 1], ["later", 0]]]},
+        {"k": 0, "ops": [["later", 1], ["later", 2], ["later", 9], ["later", 9], ["adv", 1], ["snap"], ["adv", 0], ["snap"]],
+         "bodies": [[["adv", 1], ["reset", 2, 0], ["snap"]], [["adv", 2], ["delay", 3, -6], ["later", 0]], [["later", 0]]]},
         # a postponement is outstanding when a negative delay() arrives: 5 + 2 - 3 = 4 (not 5 - 3); reset-later, then pull
         {"k": 0, "ops": [["later", 5], ["later", 3], ["delay", 0, 2], ["delay", 0, -3], ["snap"], ["adv", 2], ["snap"], ["adv", 2],
                          ["snap"], ["later", 4], ["reset", 2, 9], ["delay", 2, -6], ["snap"], ["adv", 3], ["snap"]], "bodies": []},
@@ -417,6 +488,10 @@ def coq_bop(b):
     return "BSnap"
 
 
+def coq_cop(b):
+    return f"CAdvance ({b[1]})" if b[0] == "adv" else f"Op ({coq_bop(b)})"
+
+
 def fuel_of(case):
     n = sum(1 for o in case["ops"] if o[0] == "later") + sum(1 for b in case["bodies"] for x in b if x[0] == "later")
     return n + 2
@@ -424,7 +499,7 @@ def fuel_of(case):
 
 def to_coq(case):
     ops = [f"Advance ({o[1]})" if o[0] == "adv" else f"Do ({coq_bop(o)})" for o in case["ops"]]
-    table = coq_list([coq_list(map(coq_bop, b), "bop") for b in case["bodies"]], "(list bop)")
+    table = coq_list([coq_list(map(coq_cop, b), "cop") for b in case["bodies"]], "(list cop)")
     return f"({fuel_of(case)}%nat, {table}, {coq_list(ops, 'op')})%Z"
 
 
@@ -465,12 +540,11 @@ SPEC = Spec(
          "11-letter alphabet {callLater 0/1/2, advance 1, cancel #0, reset #1 +1, reset #0 +0, reset #0 +3, delay #0 +1, delay #0 -2, delay #1 -1} "
          "with a fixed table of call bodies (nested callLater/reset/cancel/delay), without, and with a table whose functions raise, each followed by "
          "snapshots and two advances; random histories of 5-60 operations with random body tables, scales 2^0..2^-20, "
-         "tie-heavy small delays and 2^30-size delays; a separate stream with negative delays/advances; a stream that postpones a call (delay(+a) / reset to later) and then pulls it back with delay(-b), b >, =, < a, also from inside a running call; "
+         "tie-heavy small delays and 2^30-size delays; a separate stream with negative delays/advances; a stream of re-entrant clock.advance(d) from inside running calls (nested, followed by callLater(0)/reset(0)/delay(-k) into the window just passed, sometimes raising); a stream that postpones a call (delay(+a) / reset to later) and then pulls it back with delay(-b), b >, =, < a, also from inside a running call; "
          "non-trivial = at least one call ran; distinct by (case, observation)",
     trusted=["hand-written model coq/C09/Model.v + coq/Lib/TimersCall.v (tied by this correspondence run only)",
              "Python list.sort is stable (the model uses insertion sort; any stable sort gives the same list)",
-             "call functions are scripts of timer-API operations that may end by raising; functions that call "
-             "advance() re-entrantly are not modelled"],
+             "call functions are scripts of timer-API operations and re-entrant clock.advance() calls, and may end by raising"],
     assumptions=["float arithmetic (+, -, <, <=) is exact on the generated times: integers n with |n| < 2^34 scaled by "
                  "2^-k, k <= 20 (the harness prints any inexact time with a '~' so that it could never match the model)"],
 )
